@@ -316,7 +316,11 @@ GAPS = [1, 2, 3, 5, 8, 13, 21, 34, 55, 89, 144, 233, 377, 610, 987, 1597]
 
 def draw_plan(ch, n_tasks, horizon_steps, horizon_shared, foci=None, focus_horizons=None):
     """Materialise a schedule (0 = simplest: run the tasks one after the other)."""
-    strat = ch.weighted([1, 4, 3, 5, 3], "strategy")  # serial, memoryless(step), pct(step), targeted points, targeted pct
+    # serial, memoryless(step), pct(step), targeted points, targeted pct, single pre-emption at a uniform step (= pct, d=1)
+    strat = ch.weighted([1, 4, 3, 5, 3, 3], "strategy")
+    single = strat == 5
+    if single:
+        strat = 2
     order = list(range(n_tasks))
     # a permutation, drawn as successive picks
     perm = []
@@ -350,7 +354,7 @@ def draw_plan(ch, n_tasks, horizon_steps, horizon_shared, foci=None, focus_horiz
                 "name": "memoryless" if strat == 1 else "targeted"}
     by = "step" if strat == 2 else "shared"
     horizon = max(1, horizon_steps if by == "step" else horizon_shared)
-    d = 1 + ch.draw(4, "pct_depth")
+    d = 1 if single else 1 + ch.draw(4, "pct_depth")
     changes = sorted(1 + ch.draw(horizon, "change") for _ in range(d))
     return {"kind": "pct", "by": by, "order": perm, "changes": changes, "focus": focus,
-            "name": "pct" if strat == 2 else "targeted-pct"}
+            "name": "single-preemption" if single else ("pct" if strat == 2 else "targeted-pct")}
